@@ -599,6 +599,9 @@ func genC11(c *Ctx) {
 // ---------------- C18 ----------------
 
 func genC18(c *Ctx) {
+	canonHugeStops(c)
+	nestedTraversals(c)
+	trieFullFanout(c)
 	longStops(c)
 	canonLongStops(c)
 	for _, f := range formats {
